@@ -640,9 +640,9 @@ struct Sys {
 			const PSpec &p = pool[pi]; std::string got; int r = LIB(get_value(root, p, got));
 			auto it = val.find(p.key);
 			bool same = it == val.end() ? r < 0 : (r >= 0 && got == it->second);
-			if (!same) { fail("copy-object|cxx|" + pclass(p) + "|original-changed", desc + "; then a copy of the configuration object is made, modified (set/remove of every alphabet path) and destroyed: the ORIGINAL now answers " + (r < 0 ? std::string("absent") : "'" + abbrev(got) + "'") + " for " + p.label + ", its own history says " + (it == val.end() ? std::string("absent") : "'" + abbrev(it->second) + "'")); return; }
+			if (!same) { asan_error(); fail("copy-object|cxx|-|original-changed", desc + "; then a copy of the configuration object is made, modified (set/remove of every alphabet path) and destroyed: the ORIGINAL now answers " + (r < 0 ? std::string("absent") : "'" + abbrev(got) + "'") + " for " + p.label + ", its own history says " + (it == val.end() ? std::string("absent") : "'" + abbrev(it->second) + "'")); return; }
 		}
-		if (asan_error()) fail("copy-object|cxx|-|asan", desc + "; copying / modifying / destroying a copy: memory error (AddressSanitizer)");
+		if (asan_error()) fail("copy-object|cxx|-|original-changed", desc + "; copying / modifying / destroying a copy: memory error (AddressSanitizer)");
 	}
 	// ---- teardown: clear the store, everything must be gone and released
 	void teardown(const std::string &opsig, const std::string &desc)
